@@ -39,6 +39,6 @@ done
 tmp=$(mktemp)
 printf '%s\n' "${todo[@]}" | xargs -P $J -I{} bash -c 'one {}' | tee $tmp
 if [ "$ids" = "  " ]; then sort $tmp > $out; else
-  keep=$(mktemp); grep -v -F -f <(cut -f1 $tmp | sed 's/$/\t/') $out > $keep 2>/dev/null; sort $keep $tmp > $out; rm -f $keep
+  keep=$(mktemp); grep -a -v -F -f <(cut -f1 $tmp | sed 's/$/\t/') $out > $keep 2>/dev/null; sort $keep $tmp > $out; rm -f $keep
 fi
 rm -f $tmp
